@@ -62,6 +62,19 @@ CHECKS.update({
 })
 NOT_YET = {}
 
+# the whole-program layer (theorems about the executed list/array programs instantiated at the reals; DESIGN.md §10.1)
+EXTRA = {
+ 'C01': " Whole programs: HasDerivAt (value) (exp (returned log-det)) for the executed RQ (every point of the open box; with linear tails every real point), quadratic, cubic, linear spline programs and their inverses; row log-det of the executed coupling layer = channel sum, of the executed autoregressive transform (MADE conditioner) = log|det J_b|; executed Tanh (stable formula).",
+ 'C02': " Whole programs: both round trips and the negated log-det on the closed boxes (knots included) for the executed RQ, quadratic (both shapes), linear programs, RQ with tails on all reals, cubic (exact away from the declared quadratic fallback, error < quadratic_threshold otherwise, counterexample proved); executed coupling layer inverse(forward(x)) = x on whole arrays for additive/affine/RQ/RQ-tails/quadratic/linear elements; executed F-pass autoregressive inverse loop undoes forward for any autoregressive conditioner, MADE model discharged.",
+ 'C06': " The MADE model is shown to be an autoregressive conditioner in the sense the executed autoregressive transform needs (any batch coupling maps).",
+ 'C07': " Executed coupling layer (couplingApply, any XOps incl. Float): identity positions untouched, conditioner input = identity split (incl. unconditional-transform ordering), one row refines the abstract coupling.",
+ 'C09': " Whole programs: the executed RQ / quadratic / cubic / linear forward programs (and inverses) are strictly increasing bijections of the box pinning the corners for every K and parameter vector; with linear tails: identity outside, continuous, strictly increasing bijection of the real line (RQ also C1 at the junctions).",
+ 'C12': " Executed coupling / autoregressive / CDF passes: row b of out and ld depends only on row b of x and params (batch sizes may differ), for any XOps.",
+ 'C16': " Also: soundness of the dual-number rule of every XOps primitive, of every element-wise transformer (input and own-parameter directions) and of the whole executed RQ program on dual numbers (returns (value, exp(log-det))).",
+ 'C17': " Whole programs: every executed spline program (RQ, quadratic both shapes, cubic, linear; forward and inverse; RQ with tails on all reals; RQ-tails coupling layers) returns a value on its whole domain (all gathers in range, assertions dead, logarithm arguments positive); counterexample theorem for the one-bin quadratic tails configuration (known finding F27).",
+}
+
+
 def main():
     props = [json.loads(l) for l in open(os.path.join(HERE, 'properties.jsonl'))]
     checks, na = [], []
@@ -76,7 +89,7 @@ def main():
                 'evidence_file': 'evidence/%s.json' % pid,
                 'replay_cmd_template': './bin/check %s --replay {path}' % pid,
                 'engine': 'lean-proof+correspondence',
-                'level_claimed': {'category': c['cat'], 'text': c['text'], 'design_ref': c['ref']},
+                'level_claimed': {'category': c['cat'], 'text': c['text'] + EXTRA.get(pid, ''), 'design_ref': c['ref']},
                 'level_note': c.get('note', NOTE_COMMON),
                 'technique': c['tech'],
             })
